@@ -13,7 +13,7 @@ import traceback
 
 VERIF = os.path.dirname(os.path.dirname(os.path.abspath(__file__)))
 CONTRACT_MODULES = ['lexer', 'codegen_base', 'parser_actions', 'intermediate', 'symtable', 'compiler',
-                    'writers', 'searchers', 'borrowers', 'factories', 'readers', 'jsonindex', 'pysnmp_adapt', 'scripts']
+                    'writers', 'searchers', 'borrowers', 'factories', 'codegen_render', 'readers', 'jsonindex', 'pysnmp_adapt', 'scripts']
 
 
 def load_contracts():
